@@ -2,27 +2,36 @@ package main
 
 import (
 	"fmt"
+	"io"
+	"strings"
 
-	"github.com/freeconf/yang/meta"
-	"github.com/freeconf/yang/node"
-	"github.com/freeconf/yang/nodeutil"
 	"github.com/freeconf/yang/parser"
 )
 
 func main() {
-	y := `module m { namespace "urn:m"; prefix m; revision 0; typedef r { type leafref { path "../name"; } } typedef r2 { type r; }
-	container c { leaf name { type int32; } leaf ref { type r; } leaf-list refs { type r2; } } container d { leaf name { type string; } leaf ref { type r; } } }`
-	m, err := parser.LoadModuleFromString(nil, y)
-	fmt.Println(err)
-	if err != nil {
-		return
+	sets := map[string]map[string]string{
+		"8 sub identity base": {"a": `module a { namespace "a"; prefix a; include s; identity root; }`, "s": `submodule s { belongs-to a { prefix a; } identity subid { base root; } leaf l { type identityref { base root; } } }`},
+		"8b sibling submodule": {"a": `module a { namespace "a"; prefix a; include s; include s2; }`, "s": `submodule s { belongs-to a { prefix a; } identity subid { base root; } }`, "s2": `submodule s2 { belongs-to a { prefix a; } identity root; }`},
+		"11 name equals prefix": {"a": `module a { namespace "a"; prefix a; import m1 { prefix m2; } import m2 { prefix x; } leaf l1 { type m2:foo; } leaf l2 { type x:foo; } }`, "m1": `module m1 { namespace "m1"; prefix m1; typedef foo { type int8; } }`, "m2": `module m2 { namespace "m2"; prefix m2; typedef foo { type string; } }`},
+		"12 if-feature under bit": {"a": `module a { yang-version 1.1; namespace "a"; prefix a; feature f; leaf b { type bits { bit x { if-feature f; } bit y; } } }`},
+		"12 quoted type": {"a": `module a { namespace "a"; prefix a; leaf x { type "int8"; } }`},
 	}
-	for _, p := range []string{"c/ref", "c/refs", "d/ref"} {
-		t := meta.Find(m, p).(meta.HasType).Type()
-		fmt.Println(p, t.Format(), t.Path(), t.Resolve().Format())
+	for name, files := range sets {
+		files := files
+		op := func(n, e string) (io.Reader, error) {
+			if y, ok := files[n]; ok {
+				return strings.NewReader(y), nil
+			}
+			return nil, nil
+		}
+		func() {
+			defer func() {
+				if r := recover(); r != nil {
+					fmt.Println(name, "PANIC", r)
+				}
+			}()
+			m, err := parser.LoadModule(op, "a")
+			fmt.Println(name, "->", m != nil, err)
+		}()
 	}
-	n, _ := nodeutil.ReadJSON(`{"c":{"name":5,"ref":5,"refs":[1,2]},"d":{"name":"x","ref":"x"}}`)
-	fmt.Println(nodeutil.WriteJSON(node.NewBrowser(m, n).Root()))
-	n2, _ := nodeutil.ReadJSON(`{"c":{"ref":"notanumber"}}`)
-	fmt.Println(nodeutil.WriteJSON(node.NewBrowser(m, n2).Root()))
 }
